@@ -1699,18 +1699,41 @@ class Exec:
 
 
 def int_of_real(r):
-    """integer value of a real term known to be integral: strips ToReal where syntactically possible, otherwise
-    python/NumPy truncation toward zero"""
-    from z3 import is_to_real, is_app, Z3_OP_UMINUS, Z3_OP_MUL, is_rational_value
-    if is_sym(r) and is_int(r):
-        return r
-    if is_to_real(r):
-        return r.arg(0)
-    if is_app(r) and r.decl().kind() == Z3_OP_UMINUS and is_to_real(r.arg(0)):
-        return -r.arg(0).arg(0)
-    if is_app(r) and r.decl().kind() == Z3_OP_MUL and r.num_args() == 2 and is_rational_value(r.arg(0)) \
-            and r.arg(0).numerator_as_long() == -1 and r.arg(0).denominator_as_long() == 1 and is_to_real(r.arg(1)):
-        return -r.arg(1).arg(0)
+    """integer value of a real term: exact syntactic conversion where the term is built from ToReal / integer numerals /
+    + - ite (hence integral by construction), otherwise python/NumPy truncation toward zero"""
+    from z3 import (is_to_real, is_app, is_add, is_sub, is_rational_value, Z3_OP_UMINUS, Z3_OP_MUL, Z3_OP_ITE)
+
+    def conv(t):
+        if is_int(t):
+            return t
+        if is_to_real(t):
+            return t.arg(0)
+        if is_rational_value(t):
+            return IntVal(t.numerator_as_long()) if t.denominator_as_long() == 1 else None
+        if is_app(t) and t.decl().kind() == Z3_OP_UMINUS:
+            c = conv(t.arg(0))
+            return None if c is None else -c
+        if is_add(t) or is_sub(t):
+            cs = [conv(c) for c in t.children()]
+            if any(c is None for c in cs):
+                return None
+            res = cs[0]
+            for c in cs[1:]:
+                res = (res + c) if is_add(t) else (res - c)
+            return res
+        if is_app(t) and t.decl().kind() == Z3_OP_MUL and t.num_args() == 2:
+            x, y = conv(t.arg(0)), conv(t.arg(1))
+            if x is not None and y is not None and (is_rational_value(t.arg(0)) or is_rational_value(t.arg(1))):
+                return x * y
+            return None
+        if is_app(t) and t.decl().kind() == Z3_OP_ITE:
+            x, y = conv(t.arg(1)), conv(t.arg(2))
+            return None if x is None or y is None else If(t.arg(0), x, y)
+        return None
+    if is_sym(r):
+        c = conv(r)
+        if c is not None:
+            return c
     return If(r >= 0, ToInt(r), -ToInt(-r))
 
 
